@@ -23,7 +23,7 @@
                             outcome among its replicas); minimum over the tier's shards *)
 From Coq Require Import List Bool Arith NArith.
 Import ListNotations.
-From C09 Require Import Model CaseDefs Proofs ProofsLive ProofsSpec.
+From C09 Require Import Model ModelIlv ModelFlat CaseDefs Proofs ProofsLive ProofsSpec ProofsIlv ProofsIlvRun ProofsIlvSpec ProofsFlat.
 
 (* If the proxy reports the bulk as stored then the hot tier has a shard all of whose replicas
    returned success for a call carrying exactly this payload, and so has the long-term tier when
@@ -221,3 +221,210 @@ Proof. eexists. vm_compute. reflexivity. Qed.
 Example C09_nonvacuous_spec :
   forallb (legal_order (length ex_hin)) [[1; 0]; [0; 1]] = true /\ Covers 2 [1; 0].
 Proof. split. reflexivity. intros i Hi. destruct i as [|[|i]]; simpl; auto. exfalso. inversion Hi as [|? H1]; inversion H1 as [|? H2]; inversion H2. Qed.
+
+
+(* ================================================================== interleaved visits, expiry at any step
+   Vocabulary (ModelIlv.v):
+     reps_ilv pay d sg rs = (rs', calls, ok, accs, d')
+        the callback of shard.Bulk run on the replicas rs (written bit + script each) under the
+        schedule sg: a list of events EMain (the loop checks the next replica's bit and spawns or
+        skips) / EStart i (the call of replica i begins: it observes the context) / EReturn i /
+        ERecord i (hostErrors[i] or writtenReplicas[i] is stored, wg.Done) / EExpire (the request
+        context becomes done); an event first performs the steps that must precede it, the steps left
+        after sg are performed at the end (wg.Wait) — so EVERY list of events is a schedule and
+        every interleaving of the goroutines is one of them.  d = context done on entry; accs =
+        replicas whose STORE accepted; d' = context done afterwards.
+     phases d sg rs     per replica, how its call met the context: PLive (scripted outcome), PDead
+                        (began after expiry: context error, store not reached), PLate (expiry while
+                        in flight: context error although the store accepted if it accepts;
+                        a stub that ignores the context, OSlowOk, still returns success)
+     shard_bulk_ilv     the same behind the circuit; store_documents_x: StoreDocuments on such
+                        visits, one schedule per visit (sch), d0 = done before the call
+     quiet d sg         the context does not change state during the visit (done on entry, or no
+                        EExpire in sg) *)
+
+(* The written bits after a visit, its call log (per replica), its verdict and the stores' accept
+   log are the same for every two interleavings in which each replica's call met the context in
+   the same phase: nothing else of the schedule matters (the goroutines share only the context
+   and touch one cell of hostErrors / writtenReplicas each). *)
+Theorem C09_visit_interleaving_independent :
+  forall pay d sg1 sg2 rs,
+    phases d sg1 rs = phases d sg2 rs ->
+    res4 (reps_ilv pay d sg1 rs) = res4 (reps_ilv pay d sg2 rs).
+Proof. exact reps_ilv_independent. Qed.
+Print Assumptions C09_visit_interleaving_independent.
+
+(* ... and what every interleaving computes is the sequential replica-order loop of Model.v on
+   the scripts whose next outcome is adjusted by the call's phase. *)
+Theorem C09_visit_is_sequential_on_phases :
+  forall pay d sg rs,
+    let '(rs', calls, ok, accs, _) := reps_ilv pay d sg rs in
+    (rs', calls, ok) = send_reps pay false 0 (adj_reps (phases d sg rs) rs)
+    /\ accs = accs_ph (phases d sg rs) 0 rs.
+Proof. exact reps_ilv_char. Qed.
+Print Assumptions C09_visit_is_sequential_on_phases.
+
+(* Hence the sequential shard.Bulk of Model.v (used by the theorems above) is a sound
+   representative: while the context does not change state, EVERY interleaving of a visit gives
+   exactly its result. *)
+Theorem C09_visit_sequential_model_sound :
+  forall pay d sg sh, quiet d sg ->
+    let '(sh', short, calls, ok, _, d') := shard_bulk_ilv pay d sg sh in
+    (sh', short, calls, ok) = shard_bulk pay d sh /\ d' = d.
+Proof. exact shard_bulk_ilv_quiet. Qed.
+Print Assumptions C09_visit_sequential_model_sound.
+
+(* Acknowledgement soundness with the context expiring at ANY step of ANY visit, under EVERY
+   interleaving of every visit: an acknowledged bulk has, per configured tier, a shard all of
+   whose replicas returned success for a call with this payload (AckT) — and all of whose replicas'
+   STORES accepted it (AckS, by the stores' own logs). *)
+Theorem C09_ack_sound_any_expiry :
+  forall tries pay cin hin cord hord d0 sch s sch' log acs,
+    1 <= tries ->
+    store_documents_x tries pay cin hin cord hord d0 sch = (s, sch', log, acs, true) ->
+    (AckT pay Cold cin log /\ AckT pay Hot hin log) /\
+    (AckS Cold cin log acs /\ AckS Hot hin log acs).
+Proof. exact ack_sound_x. Qed.
+Print Assumptions C09_ack_sound_any_expiry.
+
+(* A written bit is only ever set by a successful call to that replica whose store accepted, and
+   a replica is skipped only after such a call — under every interleaving and expiry point. *)
+Theorem C09_written_only_on_ok_any_expiry :
+  forall tries pay cin hin cord hord d0 sch s sch' log acs ok,
+    store_documents_x tries pay cin hin cord hord d0 sch = (s, sch', log, acs, ok) ->
+    (forall t sd rp sh r,
+      nth_error (match t with Cold => cold s | Hot => hot s end) sd = Some sh ->
+      nth_error (s_reps sh) r = Some rp -> r_written rp = true ->
+      HasOk pay t sd r log /\ HasAcc t sd r log acs)
+    /\ SkipsOk (nr_sh (shc_of cin) (shc_of hin)) pay [] log.
+Proof. exact written_only_on_ok_x. Qed.
+Print Assumptions C09_written_only_on_ok_any_expiry.
+
+(* What the code really does after expiry: it does NOT stop — the remaining shards and attempts are
+   still visited and calls are still started (nobody but the replica call looks at the context,
+   and the back-off is a plain sleep); but from the first visit boundary at which the context is
+   done (s: any state there, n: attempts left) every call returns the context's error, no store
+   accepts anything, no written bit changes — and the bulk is acknowledged only if every tier
+   still to be written already had a fully written shard at that moment. *)
+Theorem C09_no_ack_after_expiry_without_full_shard :
+  forall n pay s sch s' sch' vs acs ok,
+    dead (ctx s) = true ->
+    attempts_x n pay s sch = (s', sch', vs, acs, ok) ->
+    (AllCtx vs /\ NoAcc acs /\ bits (cold s') = bits (cold s) /\ bits (hot s') = bits (hot s)) /\
+    (1 <= n -> ((cold_w s = false /\ ~ FullT (cold s)) \/ ~ FullT (hot s)) -> ok = false).
+Proof. exact no_ack_after_expiry. Qed.
+Print Assumptions C09_no_ack_after_expiry_without_full_shard.
+
+(* Link to the correspondence run of the interleaving cases: the executable checker evaluated on
+   the IMPLEMENTATION's result, log and stores' accept logs (CaseDefs.spec_ok_ilv: acknowledgement
+   by returned successes AND by the stores' own logs, skips only after success, returned success
+   => store accepted, after a visit in which the context expired only context errors and no
+   accepts) holds on the model's own output for every input, schedule and expiry point. *)
+Theorem C09_model_satisfies_spec_interleaved :
+  forall tries pay cin hin cord hord d0 sch,
+    1 <= tries ->
+    let '(_, _, log, acs, ok) := store_documents_x tries pay cin hin cord hord d0 sch in
+    spec_ok_ilv pay cin hin d0 sch ok log acs = true.
+Proof. exact model_spec_ok_ilv. Qed.
+Print Assumptions C09_model_satisfies_spec_interleaved.
+
+(* ================================================================== ragged tiers (ModelFlat.v)
+   The status of a tier is a FLAT array cut into windows of length R = replica count of the LAST
+   shard (newBulkStores overwrites replicasCnt per shard).  visit_flat pay d w scs = one executed
+   visit of a shard with scripts scs whose window is w. *)
+
+(* the windows getShard cuts out are the rows of a matrix with R columns: disjoint, in order *)
+Theorem C09_status_windows_are_rows :
+  forall R ws i w,
+    Forall (fun x => length x = R) ws -> nth_error ws i = Some w -> window R i (concat ws) = w.
+Proof. exact window_concat. Qed.
+Print Assumptions C09_status_windows_are_rows.
+
+(* hypothesis under which the theorems above describe the code: every shard has at most as many
+   replicas as the last shard of its tier (every uniform tier; replicasCnt is then the common
+   count) — such a visit is exactly the matrix model's, cells beyond the shard's replicas stay
+   untouched *)
+Theorem C09_ragged_narrow_shard_refines_matrix :
+  forall pay d scs w,
+    length scs <= length w -> (w <> [] \/ scs = []) ->
+    visit_flat pay d w scs =
+    let '(rs', calls, ok) := send_reps pay d 0 (zipr w scs) in
+    FOk (map r_written rs' ++ skipn (length scs) w) (map r_script rs') calls ok.
+Proof. exact visit_flat_refines. Qed.
+Print Assumptions C09_ragged_narrow_shard_refines_matrix.
+
+Theorem C09_uniform_replicas_cnt :
+  forall R hosts, hosts <> [] -> Forall (fun r => r = R) hosts -> replicas_cnt hosts = R.
+Proof. exact replicas_cnt_uniform. Qed.
+Print Assumptions C09_uniform_replicas_cnt.
+
+(* outside that hypothesis: a shard WIDER than the last one makes every executed visit of it
+   panic (index out of range in the loop of shard.Bulk), whatever the scripts — never an
+   acknowledgement, but not a reported failure either.  Not reachable through the configuration
+   (stores.NewStoresFromString builds uniform tiers), only through a hand-built stores.Stores. *)
+Theorem C09_ragged_wide_shard_panics :
+  forall pay d scs w,
+    w <> [] -> length w < length scs -> exists calls, visit_flat pay d w scs = FPanic calls.
+Proof. exact visit_flat_wide. Qed.
+Print Assumptions C09_ragged_wide_shard_panics.
+
+(* ------------------------------------------------------------------ non-vacuity of the new statements *)
+
+(* two different interleavings (different start and return orders, one with explicit loop and
+   record steps) with the same phases; the hypothesis of ..._independent is met *)
+Example C09_nonvacuous_interleavings :
+  let rs := [mkRep false [OOk]; mkRep true []; mkRep false [OErr; OOk]] in
+  phases false [EStart 2; EStart 0; EReturn 0; EReturn 2] rs
+  = phases false [EMain; EMain; EStart 0; EReturn 0; ERecord 0; EMain; EStart 2] rs
+  /\ quiet false [EStart 2; EStart 0; EReturn 0; EReturn 2]
+  /\ reps_ilv 7 false [EStart 2; EStart 0; EReturn 0; EReturn 2] rs
+     = ([mkRep true []; mkRep true []; mkRep false [OOk]], [mkCall 0 OOk 7; mkCall 2 OErr 7], false, [0], false).
+Proof. split; [reflexivity|split; [right; reflexivity|reflexivity]]. Qed.
+
+(* accepted-but-late through the request context: the context expires while the call of replica 0
+   is in flight — the store has the payload (accs = [0]), the call returns the context's error,
+   the written bit stays clear; replica 1 begins after the expiry and does not reach its store *)
+Example C09_accepted_but_late_by_expiry :
+  reps_ilv 7 false [EStart 0; EExpire; EStart 1] [mkRep false [OOk]; mkRep false [OOk]]
+  = ([mkRep false []; mkRep false []], [mkCall 0 OTimeout 7; mkCall 1 OCtx 7], false, [0], true)
+  /\ phases false [EStart 0; EExpire; EStart 1] [mkRep false [OOk]; mkRep false [OOk]] = [PLate; PDead].
+Proof. split; reflexivity. Qed.
+
+(* an acknowledgement with the context expiring INSIDE the deciding visit (replica 1's stub
+   ignores the context and answers success after the expiry): hypotheses of ack_sound_any_expiry *)
+Example C09_nonvacuous_ack_any_expiry :
+  exists s sch',
+    store_documents_x 3 7%N [] [([], [[OOk]; [OSlowOk]])] [] [[0]] false [[EStart 0; EStart 1; EReturn 0; EExpire]]
+    = (s, sch', [mkVisit Hot 0 false [mkCall 0 OOk 7; mkCall 1 OSlowOk 7]], [[0; 1]], true).
+Proof. eexists. eexists. vm_compute. reflexivity. Qed.
+
+(* the context expires in the first visit while replica 1 is in flight: its store accepted, the
+   bulk is NOT acknowledged; the two further attempts are still made, with context errors only *)
+Example C09_nonvacuous_no_ack_after_expiry :
+  exists s sch',
+    store_documents_x 3 7%N [] [([], [[OOk]; [OOk]])] [] [] false [[EStart 0; EStart 1; EReturn 0; EExpire]]
+    = (s, sch', [mkVisit Hot 0 false [mkCall 0 OOk 7; mkCall 1 OTimeout 7];
+                 mkVisit Hot 0 false [mkCall 1 OCtx 7];
+                 mkVisit Hot 0 false [mkCall 1 OCtx 7]], [[0; 1]; []; []], false)
+    /\ dead (ctx s) = true /\ ~ FullT (hot s).
+Proof.
+  eexists. eexists. split; [vm_compute; reflexivity|]. split; [reflexivity|].
+  intros [H|(i & sh & Hn & Hw)]; [discriminate|].
+  destruct i as [|[|i]]; simpl in Hn; try discriminate. inversion Hn; subst. discriminate.
+Qed.
+
+(* ragged: the hypotheses of the narrow-shard theorem are met by a 1-replica shard in a tier whose
+   last shard has 2; a 2-replica shard in a tier whose last shard has 1 panics after calling
+   replica 0; with a last shard of ZERO replicas the first successful call kills the process,
+   and a visit of the zero-replica shard itself "succeeds" without any call *)
+Example C09_ragged_examples :
+  (length [[OOk]] <= length [false; false] /\ [false; false] <> @nil bool)
+  /\ visit_flat 0 false [false; false] [[OErr]] = FOk [false; false] [[]] [mkCall 0 OErr 0] false
+  /\ visit_flat 0 false [false] [[OOk]; [OOk]] = FPanic [mkCall 0 OOk 0]
+  /\ visit_flat 0 false [] [[OOk]] = FCrash
+  /\ visit_flat 0 false [] [[OErr]] = FOk [] [[]] [mkCall 0 OErr 0] false
+  /\ (exists s, store_documents 3 0%N [] [([], [])] [] [] None = (s, [mkVisit Hot 0 false []], true)).
+Proof.
+  split; [split; [simpl; auto|discriminate]|]. repeat (split; [reflexivity|]).
+  eexists. vm_compute. reflexivity.
+Qed.
